@@ -44,11 +44,13 @@ THEOREMS = [
     "SleapVerif.C03.solver_contract_implies_stable",
     "SleapVerif.C03.grouping_reassembly",
     "SleapVerif.C03.reassembly_exact",
+    "SleapVerif.C03.rows_exact",
     "SleapVerif.C03.empty_frame_no_instances",
+    "SleapVerif.C03.coincident_pair_counterexample",
     "SleapVerif.C03.keepTop_all",
 ]
 
-STRIDES = [(2, 4), (4, 8), (2, 2), (4, 4), (1, 2), (2, 8), (4, 2), (1, 1)]
+STRIDES = [(2, 4), (4, 8), (2, 2), (4, 4), (1, 2), (2, 8), (4, 2), (1, 1), (3, 3), (3, 6), (2, 6)]
 TOL_SCORE = 2e-5
 # Rounding knife edges.  The model reports for every rounded coordinate the margin |2·frac − 1| (twice its distance,
 # in PAF-grid units, from the nearest half-integer).  The real code interpolates with float32 `linspace` values
@@ -141,8 +143,9 @@ def gen_scene(rng, big=False, crowded=False, empty=None, border_band=False, elon
     if crowded:
         max_edge = min_edge + 3.0
         box = 2 * 2.6 * max_edge + sep + 2.0              # room for a depth ≤ 2..3 animal plus the gap
-        Win = int(math.ceil((3 * box + 2 * unit + 8) / unit)) * unit
-        Hin = int(math.ceil((2 * box + 2 * unit + 8) / unit)) * unit
+        Win = int(math.ceil((3 * box + 2 * unit + 8) / unit)) * unit + rng.randrange(0, unit)
+        Hin = int(math.ceil((2 * box + 2 * unit + 8) / unit)) * unit + rng.randrange(0, unit)
+        ratio = 0.25
     else:
         cells = rng.randrange(18, 33 if not big else 41)
         cells_w = rng.randrange(18, 33 if not big else 41)
@@ -154,7 +157,14 @@ def gen_scene(rng, big=False, crowded=False, empty=None, border_band=False, elon
         while (cells * unit // ps) * (cells_w * unit // ps) * 2 * len(edges) > (16000 if not big else 40000):
             cells = max(12, cells - 2); cells_w = max(12, cells_w - 2)
         Hin, Win = cells * unit, cells_w * unit
-        max_len = 0.25 * max(Hin // ps, Win // ps, 2 * len(edges)) * ps
+        if not elongated and rng.random() < 0.5:      # image sizes that are no multiple of either stride
+            Hin += rng.randrange(0, unit) if unit > 1 else 0
+            Win += rng.randrange(0, unit) if unit > 1 else 0
+        ratio = 0.25 if (elongated or rng.random() < 0.5) else rng.choice([0.15, 0.5, 1.0])
+        max_len = ratio * max(-(-Hin // ps), -(-Win // ps), 2 * len(edges)) * ps
+        if 1.3 * max_len < min_edge + 2.0:
+            ratio = 0.25
+            max_len = ratio * max(-(-Hin // ps), -(-Win // ps), 2 * len(edges)) * ps
         max_edge = max(min_edge + 2.0, min(1.3 * max_len, (0.45 if not elongated else 1.6) * min(Hin, Win)))
     B = rng.choice([1, 1, 2, 3]) if not crowded else rng.choice([1, 2])
     if empty:
@@ -248,11 +258,33 @@ def gen_scene(rng, big=False, crowded=False, empty=None, border_band=False, elon
     return {
         "cs": cs, "ps": ps, "n_nodes": n_nodes, "edges": edges, "Hin": Hin, "Win": Win,
         "sigma_c": sigma_c, "sigma_p": sigma_p, "frames": frames, "scale": scale, "effs": effs,
-        "refinement": rng.choice([None, None, "integral"]), "patch": rng.choice([3, 5]),
+        "refinement": rng.choice([None, None, "integral", "integral", "local"]), "patch": rng.choice([3, 5]),
         "n_points": rng.choice([5, 7, 15]) if rng.random() < 0.3 else 10,
-        "ratio": 0.25, "weight": rng.choice([1.0, 1.0, 0.5]), "min_line": 0.25,
-        "min_peaks": 0, "threshold": 0.2,
+        "ratio": ratio, "weight": rng.choice([1.0, 1.0, 0.5]), "min_line": rng.choice([0.25, 0.25, 0.1, 0.4]),
+        "min_peaks": 0, "threshold": rng.choice([0.2, 0.2, 0.1, 0.3]),
     }
+
+
+def max_edge_length(sc):
+    """`max_edge_length_ratio * max(pafs.shape[-1], [-2], [-3]) * pafs_stride` of the scene"""
+    ps = sc["ps"]
+    return sc["ratio"] * max(-(-sc["Hin"] // ps), -(-sc["Win"] // ps), 2 * len(sc["edges"])) * ps
+
+
+def scene_tags(sc, b):
+    fr = sc["frames"][b]
+    ml = max_edge_length(sc)
+    pen = any(an[u] is not None and an[v] is not None and
+              math.hypot(float(an[u][0] - an[v][0]), float(an[u][1] - an[v][1])) > ml
+              for an in fr for (u, v) in sc["edges"])
+    cs, ps = sc["cs"], sc["ps"]
+    return [f"n_points={sc['n_points']}", f"weight={sc['weight']}", f"ratio={sc['ratio']}", f"min_line={sc['min_line']}",
+            f"threshold={sc['threshold']}", f"eff={sc['effs'][b]}",
+            f"patch={sc['patch']}" if sc["refinement"] == "integral" else "patch=n/a",
+            "penalty_active" if pen else "penalty_inactive",
+            "size_multiple_of_strides" if sc["Hin"] % max(cs, ps) == 0 and sc["Win"] % max(cs, ps) == 0
+            else "size_not_multiple_of_strides",
+            "stride_power_of_two" if (cs & (cs - 1)) == 0 and (ps & (ps - 1)) == 0 else "stride_not_power_of_two"]
 
 
 def frac_json(sc):
@@ -300,13 +332,28 @@ def _f32(x):
     return np.float32(x)
 
 
-def oracle(sc, b, pred):
-    """pred: list of instances, each a list per node of (x, y) floats or None.  Returns None or a reason."""
+def ideal_peak_value(sc, p_in):
+    """value of the ideal confidence map at the grid cell nearest to the keypoint `p_in` (network-input
+    coordinates): what `find_local_peaks` reports for that keypoint (also with integral refinement, which
+    keeps the rough peak's value)"""
+    cs = sc["cs"]
+    ncx, ncy = (sc["Win"] + cs - 1) // cs, (sc["Hin"] + cs - 1) // cs
+    x, y = float(p_in[0]), float(p_in[1])
+    gx = min(max(math.floor(x / cs + 0.5), 0), ncx - 1) * cs
+    gy = min(max(math.floor(y / cs + 0.5), 0), ncy - 1) * cs
+    return math.exp(-((gx - x) ** 2 + (gy - y) ** 2) / (2.0 * (sc["sigma_c"] * cs) ** 2))
+
+
+def oracle(sc, b, pred, vals=None):
+    """pred: list of instances, each a list per node of (x, y) floats or None; vals: per instance per node the
+    reported peak value (None = NaN).  Returns None or a reason."""
     exp = expected_groups(sc, b)
     s_e = sc["scale"] * float(_f32(sc["effs"][b]))
     tol = (sc["cs"] / 2.0) / s_e * (1 + 1e-4) + 1e-3
     if len(pred) != len(exp):
         return f"{len(pred)} instances predicted, {len(exp)} groups of ≥2 connected visible keypoints labelled"
+    if vals is not None and len(vals) != len(pred):
+        return f"pred_peak_values has {len(vals)} rows for {len(pred)} instances"
     used = set()
     for g in exp:
         hit = None
@@ -321,10 +368,45 @@ def oracle(sc, b, pred):
         if hit is None:
             return f"no predicted instance for the labelled group {sorted(g)} within {tol:.3f}px"
         used.add(hit)
+        if vals is not None:
+            row = vals[hit]
+            if {k for k, v in enumerate(row) if v is not None} != set(g):
+                return f"pred_peak_values NaN pattern {[v is not None for v in row]} differs from the keypoints {sorted(g)}"
+            for k in g:
+                want = ideal_peak_value(sc, (g[k][0] * Fraction(s_e), g[k][1] * Fraction(s_e)))
+                if not abs(row[k] - want) <= 2e-4:
+                    return (f"pred_peak_values of node {k} is {row[k]!r}, the confidence map has {want:.6f} at the cell "
+                            f"nearest to the keypoint")
     return None
 
 
+def canon_vals(t):
+    return [[None if v != v else v for v in row] for row in t.tolist()]
+
+
+def oracle_out(sc, b, out):
+    """the property on the observable output of `forward` for sample b"""
+    return oracle(sc, b, canon_pred(out["pred_instance_peaks"][b]), canon_vals(out["pred_peak_values"][b]))
+
+
 # ------------------------------------------------------------------ implementation side
+_FIXED = None
+
+
+def tree_is_fixed():
+    """Which matching does the tree under test have?  `match_candidates_sample` on a single NaN candidate raises
+    `cost matrix is infeasible` on the pinned code (F-C08) and returns no match after `fixes/C08-infeasible.patch`
+    (in /repo HEAD).  The model is run with the same variant (`fixed`), as harness/c08.py does."""
+    global _FIXED
+    if _FIXED is None:
+        import torch
+        from sleap_nn.inference.paf_grouping import match_candidates_sample
+        r = call(match_candidates_sample, torch.tensor([0], dtype=torch.int32), torch.tensor([[0, 1]]),
+                 torch.tensor([float("nan")]), 1)
+        _FIXED = r[0] == "ok"
+    return _FIXED
+
+
 class Recorder:
     def __init__(self):
         self.peaks = None
@@ -355,7 +437,8 @@ def make_stub(torch, sc, gm, gp):
     return IdealBottomUpNet()
 
 
-def run_impl(sc):
+def run_impl(sc, graph=True):
+    """`graph=False`: the `return_paf_graph=False, return_pafs=False, return_confmaps=True` path of `forward`"""
     import numpy as np
     import torch
     import sleap_nn.inference.bottomup as bu
@@ -372,8 +455,8 @@ def run_impl(sc):
     model = bu.BottomUpInferenceModel(
         torch_model=make_stub(torch, sc, generate_multiconfmaps, generate_pafs), paf_scorer=scorer,
         cms_output_stride=sc["cs"], pafs_output_stride=sc["ps"], peak_threshold=sc["threshold"],
-        refinement=sc["refinement"], integral_patch_size=sc["patch"], return_confmaps=False,
-        return_pafs=True, return_paf_graph=True, input_scale=sc["scale"])
+        refinement=sc["refinement"], integral_patch_size=sc["patch"], return_confmaps=not graph,
+        return_pafs=graph, return_paf_graph=graph, input_scale=sc["scale"])
 
     o_flp, o_mls, o_lsa = bu.find_local_peaks, pg.make_line_subs, pg.linear_sum_assignment
 
@@ -511,7 +594,7 @@ def scene_line(sc, b, paf_b, peaks_b, answers, ts32):
     e = sc["edges"]
     h, w, c = paf_b.shape
     flat = paf_b.reshape(-1).tolist()
-    toks = ["sample", str(sc["n_nodes"]), lst(e, lambda x: f"{x[0]} {x[1]}"), str(sc["cs"]), str(sc["ps"]),
+    toks = ["sample", "1" if tree_is_fixed() else "0", str(sc["n_nodes"]), lst(e, lambda x: f"{x[0]} {x[1]}"), str(sc["cs"]), str(sc["ps"]),
             lst(ts32, rat), rat(sc["ratio"]), rat(sc["weight"]), rat(sc["min_line"]),
             f"i {sc['min_peaks']}", rat(sc["scale"]), rat(float(_f32(sc["effs"][b]))),
             str(h), str(w), str(c), " ".join(rat(v) for v in flat),
@@ -563,6 +646,8 @@ def parse_model(line, nT, n_nodes):
                 row.append(None if x == "nan" else (unrat(x), unrat(y)))
             coords.append(row)
         out["coordrows"] = coords
+        t = out["vals"]
+        out["valrows"] = [[unrat(t[i * n_nodes + k]) for k in range(n_nodes)] for i in range(ni)]
     return out
 
 
@@ -591,7 +676,8 @@ def impl_phase(chk, sc):
         lsa_b = rec.lsa[b * nE:(b + 1) * nE]
         lines.append(scene_line(sc, b, paf_b, peaks_b, [a for _, a in lsa_b], ts32))
         ctx.append((peaks_b, lsa_b))
-    keep = {k: out[k] for k in ("pred_instance_peaks", "edge_inds", "edge_peak_inds", "line_scores", "instance_scores")}
+    keep = {k: out[k] for k in ("pred_instance_peaks", "pred_peak_values", "edge_inds", "edge_peak_inds", "line_scores",
+                                "instance_scores")}
     return {"sc": sc, "raised": None, "lines": lines, "ctx": ctx, "out": keep, "subs": rec.subs, "nT": nT}
 
 
@@ -627,6 +713,7 @@ def compare_phase(chk, c, model, tag, stats, do_case=True):
                      tags=[tag, f"strides={sc['cs']},{sc['ps']}", f"nodes={sc['n_nodes']}", f"animals={len(sc['frames'][b])}",
                            f"groups={exp_n}", f"refine={sc['refinement']}", f"batch={B}", f"scale={sc['scale']}",
                            "missing" if any(p is None for an in sc["frames"][b] for p in an) else "complete"]
+                     + scene_tags(sc, b)
                      + (["sample_without_peaks"] if n_vis == 0 else []))
         bad = False
         knife_sample = False
@@ -642,21 +729,21 @@ def compare_phase(chk, c, model, tag, stats, do_case=True):
             bad = True
         else:
             for k, i in impl_c.items():
-                c = mod_c[k]
+                mc = mod_c[k]
                 isub = [(int(subs_t[i, p, 0, 0]), int(subs_t[i, p, 0, 1])) for p in range(nT)]
                 ich = sorted({(int(subs_t[i, p, 0, 2]), int(subs_t[i, p, 1, 2])) for p in range(nT)}) if nT else []
                 same_rc = all(int(subs_t[i, p, 0, 0]) == int(subs_t[i, p, 1, 0]) and int(subs_t[i, p, 0, 1]) == int(subs_t[i, p, 1, 1])
                               for p in range(nT))
-                vf, n_knife = cmp_subs(isub, c["fsubs"], c["margins"])
-                vq, _ = cmp_subs(isub, c["rsubs"], c["margins"])
+                vf, n_knife = cmp_subs(isub, mc["fsubs"], mc["margins"])
+                vq, _ = cmp_subs(isub, mc["rsubs"], mc["margins"])
                 chk.knife_edges += n_knife
-                if vf == "diff" or (nT and ich != [c["ch"]]) or not same_rc:
+                if vf == "diff" or (nT and ich != [mc["ch"]]) or not same_rc:
                     chk.disagree("make_line_subs == BottomUp.lineSubs (Float run)", {**case, "cand": k},
-                                 {"subs": isub, "ch": ich}, {"subs": c["fsubs"], "ch": c["ch"]})
+                                 {"subs": isub, "ch": ich}, {"subs": mc["fsubs"], "ch": mc["ch"]})
                     bad = True
                     break
                 if vq == "diff":
-                    chk.disagree("make_line_subs == BottomUp.lineSubs (exact run)", {**case, "cand": k}, isub, c["rsubs"])
+                    chk.disagree("make_line_subs == BottomUp.lineSubs (exact run)", {**case, "cand": k}, isub, mc["rsubs"])
                     bad = True
                     break
                 if vf == "knife":
@@ -665,11 +752,14 @@ def compare_phase(chk, c, model, tag, stats, do_case=True):
                     knife_sample = True
                     stats["knife_candidates"] += 1
                     continue
-                if not (abs(ls[i] - c["score"]) <= TOL_SCORE):
-                    chk.disagree("score_paf_lines == BottomUp.lineScore", {**case, "cand": k}, ls[i], c["score"])
+                if ls[i] != ls[i] and mc["score"] != mc["score"]:
+                    stats["nan_scores"] += 1          # NaN on both sides (coincident source and destination peak)
+                    continue
+                if not (abs(ls[i] - mc["score"]) <= TOL_SCORE):
+                    chk.disagree("score_paf_lines == BottomUp.lineScore", {**case, "cand": k}, ls[i], mc["score"])
                     bad = True
                     break
-                stats["score_err"] = max(stats["score_err"], abs(ls[i] - c["score"]))
+                stats["score_err"] = max(stats["score_err"], abs(ls[i] - mc["score"]))
         # -- (2) scipy contract on its recorded answers (parameter of the model)
         for (C, a) in lsa_b:
             if a is None:
@@ -715,6 +805,11 @@ def compare_phase(chk, c, model, tag, stats, do_case=True):
                             chk.disagree("decode: peak*cms_stride/input_scale/eff_scale", case, p,
                                          None if q is None else (float(q[0]), float(q[1])))
                             bad = True
+                ivals = canon_vals(out["pred_peak_values"][b])
+                mvals = [[None if v is None else float(v) for v in row] for row in m["valrows"]]
+                if ivals != mvals:
+                    chk.disagree("pred_peak_values == value of the assigned peak (BottomUp.rowVals)", case, ivals, mvals)
+                    bad = True
                 isc = out["instance_scores"][b].tolist()
                 if len(isc) != len(m["iscores"]) or any(abs(x - y) > 1e-4 for x, y in zip(isc, m["iscores"])):
                     chk.disagree("instance scores", case, isc, m["iscores"])
@@ -737,7 +832,7 @@ def compare_phase(chk, c, model, tag, stats, do_case=True):
             if h2d[k] is not None:
                 stats[k] = h2d[k] if stats[k] is None else max(stats[k], h2d[k])
         # -- (5) the property itself on the implementation output
-        why = oracle(sc, b, pred)
+        why = oracle(sc, b, pred, canon_vals(out["pred_peak_values"][b]))
         if why:
             failures.append((b, why))
             stats["oracle_fail_H"].append({"H1": h1, "H2": h2})
@@ -771,37 +866,95 @@ def fails_only(sc, stats):
     res, _ = run_impl(sc)
     if res[0] == "raise":
         return True
-    return any(oracle(sc, b, canon_pred(res[1]["pred_instance_peaks"][b])) for b in range(len(sc["frames"])))
+    return any(oracle_out(sc, b, res[1]) for b in range(len(sc["frames"])))
+
+
+def only_missing_edges(sc, b, pred, bad_types):
+    """effect part of the signatures: nothing foreign or garbled is returned (every predicted instance is a subset
+    of one labelled group, coordinates within tolerance) and every labelled group that is not returned exactly
+    contains a visible edge of one of the edge types `bad_types`"""
+    exp = expected_groups(sc, b)
+    s_e = sc["scale"] * float(_f32(sc["effs"][b]))
+    tol = (sc["cs"] / 2.0) / s_e * (1 + 1e-4) + 1e-3
+    exact = set()
+    for inst in pred:
+        vis = {k for k, p in enumerate(inst) if p is not None}
+        hit = None
+        for gi, g in enumerate(exp):
+            if vis <= set(g) and all(abs(inst[k][0] - float(g[k][0])) <= tol and abs(inst[k][1] - float(g[k][1])) <= tol
+                                     for k in vis):
+                hit = gi
+                if vis == set(g):
+                    exact.add(gi)
+                break
+        if hit is None:
+            return False
+    for gi, g in enumerate(exp):
+        if gi not in exact and not any(u in g and v in g for (u, v) in bad_types):
+            return False
+    return True
 
 
 def signatures(sc, b):
-    """structural predicates of a (shrunk) failing case, matched against known findings"""
+    """structural predicates of a (shrunk) failing case, matched against known findings.  Each is *geometric*
+    (computed from the labels of the scene, not from the scores of the tree under test) plus the narrow *effect*
+    `only_missing_edges` on the implementation's output."""
     sigs = []
     cs = sc["cs"]
-    for an in sc["frames"][b]:
+    fr = sc["frames"][b]
+    for an in fr:
         for p in an:
             if p is not None and ((p[0] / cs) % 1 == Fraction(1, 2) or (p[1] / cs) % 1 == Fraction(1, 2)):
                 sigs.append("tied_confmap_cells")
-    # F-C03: the peak stage is fine (H1), thresholds and shared-peak dominance hold, but some true
-    # candidate loses a 2-exchange against a pair of candidates that will be rejected anyway
-    try:
-        res, rec = run_impl(sc)
-        if res[0] == "ok":
-            out = res[1]
-            g, vals, sinds, chans = rec.peaks
-            sel = (sinds == b).nonzero(as_tuple=True)[0].tolist()
-            peaks_img = [(float(g[i][0]) * cs, float(g[i][1]) * cs) for i in sel]
-            chs = [int(chans[i]) for i in sel]
-            h1, _, _, h2d, _ = measure_H(sc, b, peaks_img, chs, out["edge_inds"][b].tolist(),
-                                         out["edge_peak_inds"][b].tolist(), out["line_scores"][b].tolist())
-            if (h1 and h2d["exch"] is not None and h2d["exch"] <= 0
-                    and (h2d["true_min"] is None or h2d["true_min"] >= sc["min_line"])
-                    and (h2d["orphan_max"] is None or h2d["orphan_max"] < sc["min_line"])
-                    and (h2d["dom"] is None or h2d["dom"] > 0)):
-                sigs.append("exchange_margin_nonpositive")
-    except Exception:
-        pass
+    ml = max_edge_length(sc)
+    # F-C03: a true edge longer than max_edge_length, plus an orphan source and an orphan destination peak of
+    # that edge type in the frame
+    forced = [(u, v) for (u, v) in sc["edges"]
+              if any(an[u] is not None and an[v] is not None and
+                     math.hypot(float(an[u][0] - an[v][0]), float(an[u][1] - an[v][1])) > ml for an in fr)
+              and any(an[u] is not None and an[v] is None for an in fr)
+              and any(an[u] is None and an[v] is not None for an in fr)]
+    # F-C03b: a connected pair of visible keypoints of one animal in the same confidence-map cell (one NaN candidate)
+
+    def cell(p):
+        return (math.floor(float(p[0]) / cs + 0.5), math.floor(float(p[1]) / cs + 0.5))
+    coinc = [(u, v) for (u, v) in sc["edges"]
+             if any(an[u] is not None and an[v] is not None and cell(an[u]) == cell(an[v]) for an in fr)]
+    if forced or coinc:
+        try:
+            res, _ = run_impl(sc)
+            if res[0] == "ok":
+                pred = canon_pred(res[1]["pred_instance_peaks"][b])
+                if forced and only_missing_edges(sc, b, pred, forced):
+                    sigs.append("long_edge_with_orphan_src_and_dst")
+                if coinc and only_missing_edges(sc, b, pred, coinc):
+                    sigs.append("coincident_connected_pair")
+        except Exception:
+            pass
     return sorted(set(sigs))
+
+
+def gen_coincident_family(rng):
+    """F-C03b region: animal A with its two connected keypoints on the same point (one NaN candidate) next to an
+    intact animal B of the same 2-node skeleton."""
+    cs, ps = rng.choice([(2, 4), (2, 2), (4, 4)])
+    size = rng.choice([128, 160])
+    L = rng.randrange(3 * ps, 6 * ps)
+    ax, ay = rng.randrange(16, size // 2 - 8), rng.randrange(16, size - 16)
+    bx, by = rng.randrange(size // 2 + 8, size - L - 12), rng.randrange(16, size - 16)
+
+    def q(x, y):
+        fx, fy = Fraction(x), Fraction(y)
+        if (fx / cs) % 1 == Fraction(1, 2):
+            fx += Fraction(1, 4)
+        if (fy / cs) % 1 == Fraction(1, 2):
+            fy += Fraction(1, 4)
+        return (fx, fy)
+    D = 0.7072 * (ps + cs)
+    return {"cs": cs, "ps": ps, "n_nodes": 2, "edges": [(0, 1)], "Hin": size, "Win": size, "sigma_c": 1.5,
+            "sigma_p": 1.4 * D * D, "frames": [[[q(ax, ay), q(ax, ay)], [q(bx, by), q(bx + L, by)]]],
+            "scale": 1.0, "effs": [1.0], "refinement": None, "patch": 5, "n_points": 10,
+            "ratio": 0.25, "weight": 1.0, "min_line": 0.25, "min_peaks": 0, "threshold": 0.2}
 
 
 def gen_forced_family(rng):
@@ -916,6 +1069,34 @@ def writer_layout_case(chk, sc):
     chk.tag("writer_layout_checked")
 
 
+def no_graph_case(chk, sc):
+    """`forward` with `return_paf_graph=False, return_pafs=False, return_confmaps=True`: same instances, peak values
+    and scores as with the graph outputs switched on (the comparison with the model uses the latter), and the
+    property holds on them."""
+    import torch
+    r1, _ = run_impl(sc, graph=True)
+    r2, _ = run_impl(sc, graph=False)
+    chk.tag("no_graph_path_checked")
+    if r1[0] != r2[0]:
+        chk.disagree("forward(return_paf_graph=False) vs True", frac_json(sc), r2[:2], r1[:2])
+        return
+    if r1[0] == "raise":
+        return
+    for key in ("pred_instance_peaks", "pred_peak_values", "instance_scores"):
+        for b in range(len(sc["frames"])):
+            if not torch.equal(torch.nan_to_num(r1[1][key][b], nan=-7.0), torch.nan_to_num(r2[1][key][b], nan=-7.0)):
+                chk.disagree(f"forward(return_paf_graph=False).{key} == forward(return_paf_graph=True).{key}",
+                             {"scene": frac_json(sc), "sample": b}, r2[1][key][b].tolist(), r1[1][key][b].tolist())
+                return
+    if "edge_inds" in r2[1] or "pred_part_affinity_fields" in r2[1] or "pred_confmaps" not in r2[1]:
+        chk.disagree("forward output keys with return_paf_graph=False", frac_json(sc), sorted(map(str, r2[1].keys())), "no graph keys")
+    for b in range(len(sc["frames"])):
+        why = oracle_out(sc, b, r2[1])
+        if why:
+            chk.fail(f"C03 fails on BottomUpInferenceModel.forward(return_paf_graph=False): {why}",
+                     {"scene": frac_json(sc), "sample": b}, why, signatures(sc, b))
+
+
 def keeptop_cases(chk, n):
     """`BottomUpPredictor._make_labeled_frames_from_generator` max_instances filter vs `keepTop`.
     Environment shim: sleap_io 0.9.2 renamed the keyword arguments of PredictedInstance.from_numpy."""
@@ -964,7 +1145,7 @@ def keeptop_cases(chk, n):
 
 # ------------------------------------------------------------------ main
 def new_stats():
-    return {"knife_candidates": 0, "knife_samples": 0, "scenes": 0, "H1": 0, "H2": 0, "orphan_max": None,
+    return {"nan_scores": 0, "knife_candidates": 0, "knife_samples": 0, "scenes": 0, "H1": 0, "H2": 0, "orphan_max": None,
             "h1_worst_cells": 0.0, "true_min": None, "false_max": None,
             "dom": None, "exch": None, "score_err": 0.0, "oracle_fail_H": []}
 
@@ -975,7 +1156,7 @@ def handle_failures(chk, sc, failures, stats, tag):
         if small is not sc:
             res, _ = run_impl(small)
             why = (f"forward raised {res[1]}" if res[0] == "raise"
-                   else oracle(small, sb, canon_pred(res[1]["pred_instance_peaks"][sb])) or why)
+                   else oracle_out(small, sb, res[1]) or why)
         chk.fail(f"C03 fails on BottomUpInferenceModel.forward ({tag}): {why}",
                  {"scene": frac_json(small), "sample": sb}, why, signatures(small, sb))
 
@@ -1022,6 +1203,8 @@ def main(chk: Check):
                 chk.tag("crowded_scene", "crowded_max_peaks>=17" if max(
                     sum(p is not None for an in fr for p in an) for fr in sc["frames"]) >= 17 else "crowded_small")
             chunk.append(impl_phase(chk, sc))
+            if i % 9 == 3:
+                no_graph_case(chk, sc)
             if i % 4 == 0:
                 writer_layout_case(chk, sc)
         done += len(chunk)
@@ -1044,33 +1227,44 @@ def main(chk: Check):
             if res[0] == "raise":
                 chk.fail(f"forward raised {res[1]}: {res[2]}", {"scene": frac_json(sc)}, res[2])
                 break
-            bad = [(b, oracle(sc, b, canon_pred(res[1]["pred_instance_peaks"][b]))) for b in range(len(sc["frames"]))]
+            bad = [(b, oracle_out(sc, b, res[1])) for b in range(len(sc["frames"]))]
             bad = [(b, w) for b, w in bad if w]
             if bad:
                 handle_failures(chk, sc, bad, stats, "search")
                 break
 
-    # known finding F-C03: replay the witness, then sample the region the exchange clause excludes
-    wit = next((f for f in chk.known if f["id"] == "F-C03"), None)
-    if wit is not None:
-        wsc = unfrac_json(wit["witness"])
-        res, _ = run_impl(wsc)
-        why = "raised" if res[0] == "raise" else oracle(wsc, 0, canon_pred(res[1]["pred_instance_peaks"][0]))
-        chk.known_replay("F-C03", still_fails=bool(why), detail=str(why))
-    excl_fail = 0
-    n_excl = chk.n(12, 120)
-    for _ in range(n_excl):
-        sc = gen_forced_family(rng)
-        res, _ = run_impl(sc)
-        chk.tag("excluded_region_scene")
-        why = f"forward raised {res[1]}" if res[0] == "raise" else oracle(sc, 0, canon_pred(res[1]["pred_instance_peaks"][0]))
-        if why:
-            excl_fail += 1
-            if excl_fail <= 2:
-                chk.fail(f"C03 fails on BottomUpInferenceModel.forward (excluded region: orphan pair vs long animal): {why}",
-                         {"scene": frac_json(sc), "sample": 0}, why, signatures(sc, 0))
-    chk.extra["excluded_region_cases"] = {"scenes": n_excl, "oracle_failures": excl_fail,
-                                          "note": "search, not proof coverage: scenes violating the exchange clause of Separated"}
+    # known findings F-C03 / F-C03b: replay the witnesses, then sample the excluded regions (search, not coverage)
+    excl = {}
+    for fid, gen, n_excl, what in (
+            ("F-C03", gen_forced_family, chk.n(12, 120), "orphan pair vs long animal"),
+            ("F-C03b", gen_coincident_family, chk.n(6, 60), "coincident connected pair next to an intact animal")):
+        wit = next((f for f in chk.known if f["id"] == fid), None)
+        if wit is not None:
+            wsc = unfrac_json(wit["witness"])
+            res, _ = run_impl(wsc)
+            why = "raised" if res[0] == "raise" else oracle_out(wsc, 0, res[1])
+            chk.known_replay(fid, still_fails=bool(why), detail=str(why))
+        n_fail = reported = 0
+        for _ in range(n_excl):
+            sc = gen(rng)
+            chk.tag(f"excluded_region_scene:{fid}")
+            if fid == "F-C03b":
+                # the model follows the tree under test also here: NaN scores, sentinel costs, dropped matches
+                c = impl_phase(chk, sc)
+                fails = compare_phase(chk, c, run_driver("C03.lean", c["lines"]), "excluded", stats, do_case=False)
+                why = fails[0][1] if fails else None
+            else:
+                res, _ = run_impl(sc)
+                why = f"forward raised {res[1]}" if res[0] == "raise" else oracle_out(sc, 0, res[1])
+            if why:
+                n_fail += 1
+                if reported < 2:
+                    reported += 1
+                    chk.fail(f"C03 fails on BottomUpInferenceModel.forward (excluded region: {what}): {why}",
+                             {"scene": frac_json(sc), "sample": 0}, why, signatures(sc, 0))
+        excl[fid] = {"scenes": n_excl, "oracle_failures": n_fail}
+    chk.extra["excluded_region_cases"] = {**excl, "note": "search, not proof coverage: scenes outside H2 "
+                                          "(exchange clause violated / a NaN candidate)"}
 
     subs_cases(chk, chk.n(150, 2000))
     keeptop_cases(chk, chk.n(40, 400))
@@ -1082,6 +1276,7 @@ def main(chk: Check):
         "H2_max_orphan_pair_score": stats["orphan_max"],
         "H2_min_shared_peak_dominance": stats["dom"], "H2_min_exchange_margin": stats["exch"],
         "max_line_score_error": stats["score_err"],
+        "nan_scores_on_both_sides": stats["nan_scores"],
         "knife_edge_candidates_not_score_compared": stats["knife_candidates"],
         "knife_edge_samples_not_grouping_compared": stats["knife_samples"],
         "oracle_failures_with_hypotheses": stats["oracle_fail_H"][:10],
@@ -1130,7 +1325,9 @@ if __name__ == "__main__":
             "integral refinement of a peak closer to the map border than half its patch is biased inward by > half a cell "
             "(observed 0.63 cell at a 5x5 patch, cms stride 1, keypoint 1.25 px from the right border): C06/C07 matter; "
             "border-band scenes use refinement None, all other scenes keep keypoints ≥ max(stride)+2 px from the border",
-            "coincident src/dst peaks (F-C08) and LabelsReader at scale ≠ 1 (F-C02) are inherited findings and not exercised here",
+            "a connected pair of keypoints in one confidence-map cell gives a NaN candidate: outside H2 (SepTable.valid); the "
+            "main generator keeps connected nodes ≥ 2 PAF cells apart, the region is sampled separately (F-C03b, known); "
+            "F-C08 (the raise) is fixed in /repo HEAD and the model follows the tree under test (`fixed`); LabelsReader at scale ≠ 1 (F-C02) are inherited findings and not exercised here",
         ],
     )
     run_check(chk, main, replay)
